@@ -625,15 +625,53 @@ fn extreme_starts(n: usize) -> Vec<(u32, &'static str)> {
     v
 }
 
-/// diagnostic only: with C10_DUMP=<file> every failing (obligation, input) is appended as a JSON line (the report keeps 3 per obligation)
-fn dump_failures(fails: &[(String, String)], input: &Value) {
+/// diagnostic only: with C10_DUMP=<file> every failing (obligations, input) is appended as a JSON line (the report keeps
+/// only 3 per obligation). With C10_DUMP_MODE=residual only those failures are written that are NOT explained by one of
+/// the known defect classes (see `explained`), which is how "no further failure class" was established on the full family.
+fn dump_failures(c: &Case, fails: &[(String, String)], input: &Value) {
     use std::io::Write;
-    static SINK: std::sync::OnceLock<Option<std::sync::Mutex<std::fs::File>>> = std::sync::OnceLock::new();
-    let sink = SINK.get_or_init(|| std::env::var("C10_DUMP").ok().and_then(|p| std::fs::File::create(p).ok()).map(std::sync::Mutex::new));
-    if let Some(m) = sink {
+    static SINK: std::sync::OnceLock<Option<(std::sync::Mutex<std::fs::File>, bool)>> = std::sync::OnceLock::new();
+    let sink = SINK.get_or_init(|| {
+        let residual = std::env::var("C10_DUMP_MODE").map(|m| m == "residual").unwrap_or(false);
+        std::env::var("C10_DUMP").ok().and_then(|p| std::fs::File::create(p).ok()).map(|f| (std::sync::Mutex::new(f), residual))
+    });
+    if let Some((m, residual)) = sink {
+        let keep: Vec<&(String, String)> = fails.iter().filter(|f| !*residual || !explained(c, &f.0)).collect();
+        if keep.is_empty() { return; }
         if let Ok(mut f) = m.lock() {
-            let _ = writeln!(f, "{}", json!({"obligations": fails.iter().map(|x| x.0.clone()).collect::<Vec<_>>(), "details": fails.iter().map(|x| x.1.clone()).collect::<Vec<_>>(), "input": input}));
+            let _ = writeln!(f, "{}", json!({"obligations": keep.iter().map(|x| x.0.clone()).collect::<Vec<_>>(), "details": keep.iter().map(|x| x.1.clone()).collect::<Vec<_>>(), "input": input}));
         }
+    }
+}
+
+fn collect_refs(o: &Object, out: &mut Vec<ObjectId>) {
+    match o {
+        Object::Reference(id) => out.push(*id),
+        Object::Array(a) => a.iter().for_each(|x| collect_refs(x, out)),
+        Object::Dictionary(d) => d.iter().for_each(|(_, x)| collect_refs(x, out)),
+        Object::Stream(s) => s.dict.iter().for_each(|(_, x)| collect_refs(x, out)),
+        _ => {}
+    }
+}
+
+/// is a failure of this obligation on this case accounted for by a known defect class?
+/// (1) dangling reference / kid / bookmark target becomes live; (2) bookmark targets renamed one after the other;
+/// (3) a page reached twice by the page iterator (shared kid, cyclic kids) loses an object; (4) the tagged sub-families.
+fn explained(c: &Case, obligation: &str) -> bool {
+    if !c.tag.is_empty() { return true; }
+    let base = obligation.split('[').next().unwrap_or(obligation);
+    let ids: Vec<ObjectId> = c.objects.iter().map(|(id, _)| *id).collect();
+    let mut refs = vec![];
+    for (_, o) in &c.objects { collect_refs(o, &mut refs); }
+    for (_, v) in c.trailer.iter() { collect_refs(v, &mut refs); }
+    let dangling = refs.iter().any(|r| !ids.contains(r)) || c.bookmarks.iter().any(|(p, _)| !ids.contains(p));
+    let twice = c.label.starts_with("T7") || c.label.starts_with("T9");
+    match base {
+        "dangling-stays-dangling" | "bookmark-dangling" => dangling,
+        "page-order" => dangling && c.label.starts_with("T8"),
+        "bookmark-target" | "bookmark-target-content" => !c.bookmarks.is_empty(),
+        "object-count" | "renaming-one-to-one" => twice,
+        _ => false,
     }
 }
 
@@ -646,7 +684,7 @@ fn eval(c: &Case, rep: &mut Report) {
     let fails = check_case(c);
     if !fails.is_empty() {
         let input = case_json(c);
-        dump_failures(&fails, &input);
+        dump_failures(c, &fails, &input);
         for (ob, d) in fails { rep.fail(&ob, d.clone(), input.clone(), d); }
     }
 }
